@@ -581,4 +581,42 @@ theorem loaded_of_load {h : Hist} {o : LoadOpts} {m : LMap} (hl : load h o = .ok
       match hdn : rm.down, hs.2 with
       | [d], _ => exact ⟨d, by simp [dedupe]⟩
 
+/-- heads and bases as `load` computes them -/
+theorem load_heads {h : Hist} {o : LoadOpts} {m : LMap} (hl : load h o = .ok m) :
+    m.heads = (m.ids.filter (fun i => (m.nextrev i).isEmpty)) ∧
+    m.realHeads = (m.ids.filter (fun i => (m.allNextrev i).isEmpty)) ∧
+    m.bases = (h.filter (fun r => r.down.isEmpty)).map (·.id) ∧
+    m.realBases = (h.filter (fun r => r.down.isEmpty ∧ r.deps.isEmpty)).map (·.id) := by
+  obtain ⟨m1, lk, h1, hrevs, hlk, hchk, hdc, hids, hdown, hall, hnext, hanext, hnorm, hnone⟩ := load_graph hl
+  obtain ⟨m1', h1', hdc', hm⟩ := load_ok hl
+  have : m1' = m1 := by rw [h1] at h1'; exact (Except.ok.inj h1').symm
+  subst this
+  obtain ⟨f3, hk3, hn3, hm3⟩ := addBranches_eq (withNorm o m1')
+  have hH : m.heads = m1'.heads := by rw [hm, hm3]; rfl
+  have hRH : m.realHeads = m1'.realHeads := by rw [hm, hm3]; rfl
+  have hB : m.bases = m1'.bases := by rw [hm, hm3]; rfl
+  have hRB : m.realBases = m1'.realBases := by rw [hm, hm3]; rfl
+  unfold loadPhase1 at h1
+  simp only [bind, Except.bind] at h1
+  split at h1
+  · simp at h1
+  · split at h1
+    · simp at h1
+    · rename_i lk' hlk'
+      split at h1
+      · simp [throw, throwThe, MonadExceptOf.throw] at h1
+      · simp only [pure, Except.pure, Except.ok.injEq] at h1
+        have hnx : ∀ i, m.nextrev i = ({ revs := phase1Revs h lk', labelKeys := lk', heads := [], realHeads := [], bases := [], realBases := [] } : LMap).nextrev i := by
+          intro i; rw [hnext i, ← h1]; rfl
+        have hanx : ∀ i, m.allNextrev i = ({ revs := phase1Revs h lk', labelKeys := lk', heads := [], realHeads := [], bases := [], realBases := [] } : LMap).allNextrev i := by
+          intro i; rw [hanext i, ← h1]; rfl
+        have hidsm : m.ids = (phase1Revs h lk').map (·.id) := by rw [hids, ← h1]; rfl
+        refine ⟨?_, ?_, ?_, ?_⟩
+        · rw [hH, ← h1, hidsm]
+          simp only [List.filter_map, Function.comp_def, hnx]
+        · rw [hRH, ← h1, hidsm]
+          simp only [List.filter_map, Function.comp_def, hanx]
+        · rw [hB, ← h1]
+        · rw [hRB, ← h1]
+
 end Lemmas.Rev
